@@ -44,7 +44,7 @@ CHECKS = {
         text='TLC explores all sequences (depth 4-5) of mix_from / split_to / separate_out / copy_flow / empty / flow edits / phase changes over 3 streams, 2 chemicals, '
              '2 packages (one listing the chemicals in another order) and checks well-formedness and sharing consistency; every dumped state is rebuilt on real streams and '
              'random conservation operations (any inlet multiset incl. the receiver itself, scalar and per-chemical splits, removal/exclusion copies, scaling) are judged by '
-             'TLC: per-chemical totals, non-negativity, phase-class conservation, min-pressure rule, frame condition; random 30-step histories over 5 streams / 3 packages likewise.',
+             'TLC: per-chemical totals, non-negativity, phase-class conservation, min-pressure rule, frame condition; random 30-step histories over 5 streams / 3 packages likewise. Inlets sharing the receiver\'s flow container (proxies, links) count like the receiver; copy_flow onto multi-phase receivers is judged on per-chemical totals (refusals accepted).',
         note='Trusted: TLC; the projection (imol data rows, T, P, phases, object identity of data / thermal-condition / phase containers, confirmed behaviourally); integer flows so that comparison is exact. Where the property leaves the outcome open (phase of mixed material, temperature after an energy balance) the spec clauses leave it open.'),
     'C12': dict(
         engine='Streams', category='model_checking',
@@ -81,7 +81,7 @@ CHECKS = {
         technique='TLA+ spec of stoichiometric reactions over exact rationals (Reaction.tla) model-checked by TLC with action properties ReactConserves / ReactConverts; reactions applied to real streams, arrays and other-package streams on mol and wt basis; TLC validates every application',
         text='TLC explores all sequences (depth 3-4) of loading five balanced reactions on H2/O2/H2O/CH4/CO/CO2 with every reactant choice, setting feeds, combining reactions and applying single / parallel / series / system '
              'reactions, and checks element conservation and exact conversion on the model; every application on the real objects (stream on mol basis, the same reaction on wt basis, a stream of another package '
-             'order, dense and sparse arrays) must give exactly the rational result, and must raise instead of returning a negative flow.',
+             'order, dense and sparse arrays) must give exactly the rational result, and must raise instead of returning a negative flow. Phase-tagged reactions on multi-phase streams run through ReactEnergy.tla (synthetic chemicals); of those steps C05 owns the clause that an infeasible conversion in the named phase must raise.',
         note='Trusted: TLC; the projection (reaction._stoichiometry, _reactant_index, X; stream.mol) rounded to rationals with denominators <= 2^20; dyadic data so that the mol-basis path is exact.'),
     'C17': dict(
         engine='Reaction', category='model_checking',
